@@ -197,6 +197,27 @@ fn has_antipodal(spec: &Spec, a: &V, b: &V) -> bool {
     }
 }
 
+/// Largest reference distance between corresponding components (weights ignored): "the same
+/// configuration" for a compound means every component agrees, whatever it weighs in the metric.
+fn config_gap(spec: &Spec, a: &V, b: &V) -> f64 {
+    match (a, b) {
+        (V::Cmp(x), V::Cmp(y)) => {
+            let (parts, _) = as_parts(spec).unwrap();
+            (0..parts.len()).map(|i| config_gap(&parts[i], &x[i], &y[i])).fold(0.0, f64::max)
+        }
+        _ => refspace::dist(spec, a, b),
+    }
+}
+fn config_tol(spec: &Spec, a: &V, b: &V) -> f64 {
+    match (a, b) {
+        (V::Cmp(x), V::Cmp(y)) => {
+            let (parts, _) = as_parts(spec).unwrap();
+            (0..parts.len()).map(|i| config_tol(&parts[i], &x[i], &y[i])).fold(0.0, f64::max)
+        }
+        _ => interp_tol(spec, a, b),
+    }
+}
+
 fn c10_space<K: Kit>(spec: &Spec, lat: &[V], ts: &[f64], rep: &mut Report) {
     let sp = K::build(spec);
     let kit = K::NAME;
@@ -232,6 +253,16 @@ fn c10_space<K: Kit>(spec: &Spec, lat: &[V], ts: &[f64], rep: &mut Report) {
                 if t == 1.0 && !(db <= tol) {
                     viol(rep, "C10", kit, "endpoint-t1", spec, format!("interpolate(a,b,1) is {db} away from b"), det());
                 }
+                // compounds: the endpoints component by component (a weight of 0 hides a component from
+                // the compound metric, not from the configuration)
+                if matches!(ov, V::Cmp(_)) && (t == 0.0 || t == 1.0) {
+                    let target = if t == 0.0 { &lat[i] } else { &lat[j] };
+                    let gap = config_gap(spec, &ov, target);
+                    rep.count("component_endpoint_checks", 1);
+                    if !(gap <= config_tol(spec, &lat[i], &lat[j])) {
+                        viol(rep, "C10", kit, "endpoint-component", spec, format!("at t = {t} a component of the result is {gap} away from the endpoint's component"), det());
+                    }
+                }
                 // Exactly antipodal SO(2)/SO(3) parts: both arcs are shortest, the proportional
                 // distances still hold on either. (In compounds they hold per component; the
                 // compound distances then hold as well.)
@@ -242,8 +273,13 @@ fn c10_space<K: Kit>(spec: &Spec, lat: &[V], ts: &[f64], rep: &mut Report) {
                 let mut rev = st[j].clone();
                 sp.interpolate(&st[j], &st[i], 1.0 - t, &mut rev);
                 let dr = sp.distance(&out, &rev);
-                if !antipodal && !(dr <= 2.0 * tol + 1e-12 * dab) {
-                    viol(rep, "C10", kit, "reversal", spec, format!("interpolate(a,b,t) and interpolate(b,a,1-t) are {dr} apart"), det());
+                // (the statement makes no exception for antipodal pairs: whichever of the two shortest arcs
+                // the implementation picks from a to b, it must pick the same one from b to a)
+                if !(dr <= 2.0 * tol + 1e-12 * dab) {
+                    if antipodal {
+                        rep.count("antipodal_reversal_failures", 0);
+                    }
+                    viol(rep, "C10", kit, if antipodal { "reversal-antipodal" } else { "reversal" }, spec, format!("interpolate(a,b,t) and interpolate(b,a,1-t) are {dr} apart"), det());
                 }
             }
         }
